@@ -40,6 +40,8 @@ type Hooks struct {
 	mu     sync.Mutex
 	cond   *sync.Cond
 	counts map[pk]int64
+	ntrace map[uint32][]string // per node: recent hook points with time stamps (diagnosis aid for witnesses)
+	t0     time.Time
 	last   map[pk]time.Time
 	points map[string]int64
 	holds  []*Held
@@ -76,7 +78,7 @@ var (
 // InstallHooks installs the (process-wide) steering hook consumer.
 func InstallHooks() *Hooks {
 	hooksOnce.Do(func() {
-		hooks = &Hooks{counts: map[pk]int64{}, last: map[pk]time.Time{}, points: map[string]int64{}}
+		hooks = &Hooks{counts: map[pk]int64{}, last: map[pk]time.Time{}, points: map[string]int64{}, ntrace: map[uint32][]string{}, t0: time.Now()}
 		hooks.cond = sync.NewCond(&hooks.mu)
 		hooks.mev = map[uint32][]string{}
 		gorums.VerifSetHook(hooks.hit)
@@ -90,6 +92,13 @@ func (h *Hooks) hit(point string, node uint32) {
 	k := pk{point, node}
 	h.counts[k]++
 	n := h.counts[k]
+	if node != 0 && point != "rcv.parked" && point != "rcv.beforeRoute" && point != "rcv.afterRoute" && point != "snd.afterConnect" {
+		tr := h.ntrace[node]
+		if len(tr) >= 300 {
+			tr = tr[150:]
+		}
+		h.ntrace[node] = append(tr, fmt.Sprintf("%s@%dms", point, time.Since(h.t0).Milliseconds()))
+	}
 	if point == "rcv.err" || point == "wat.beforeCancel" || point == "con.broken" {
 		h.last[k] = time.Now()
 	}
@@ -161,6 +170,13 @@ func (h *Hooks) Last(point string, node uint32) time.Time {
 	h.mu.Lock()
 	defer h.mu.Unlock()
 	return h.last[pk{point, node}]
+}
+
+// NodeTrace returns the recent hook points hit on node, with millisecond stamps (diagnosis aid).
+func (h *Hooks) NodeTrace(node uint32) []string {
+	h.mu.Lock()
+	defer h.mu.Unlock()
+	return append([]string(nil), h.ntrace[node]...)
 }
 
 // Count returns the number of hits of point on node.
